@@ -282,7 +282,7 @@ func (ss *sessState) doStep(i int, st *plan.Step) (obs string) {
 			}
 			msg := normPanic(r)
 			obs = "panic: " + msg
-			if ss.prop == "C06" && decodeOps[st.Op] && !strings.Contains(msg, "callback-panic") {
+			if (ss.prop == "C06" && decodeOps[st.Op] || ss.prop == "C20" && strings.HasPrefix(st.Op, "path_")) && !strings.Contains(msg, "callback-panic") {
 				ss.viols = append(ss.viols, plan.Violation{Oracle: "panic", Where: fmt.Sprintf("session %s step %d (%s)", ss.s.ID, i, st.Op), Sig: "panic|" + st.Op + "|" + panicClass(msg),
 					Detail: fmt.Sprintf("%s panicked: %s", st.Op, msg)})
 			}
@@ -496,6 +496,10 @@ func (ss *sessState) doStep(i int, st *plan.Step) (obs string) {
 		if obj != nil {
 			ss.handles[st.H] = obj
 		}
+		if strings.HasPrefix(o, "panic: ") && (ss.prop == "C06" || ss.prop == "C20") {
+			ss.viols = append(ss.viols, plan.Violation{Oracle: "panic", Where: fmt.Sprintf("session %s step %d (%s)", ss.s.ID, i, st.Op), Sig: "panic|" + st.Op + "|" + panicClass(o[7:]),
+				Detail: fmt.Sprintf("%s(%q) panicked: %s", st.Op, st.S1, o[7:])})
+		}
 		return o
 	case "path_extract", "path_unmarshal", "path_get", "path_string":
 		p, _ := ss.handle(st, st.H).(*gojson.Path)
@@ -534,6 +538,20 @@ func (ss *sessState) doStep(i int, st *plan.Step) (obs string) {
 			}
 			dst := reflect.New(ti.Type())
 			err := p.Get(src, dst.Interface())
+			// Get walks Go maps: with several matches their order is Go's map
+			// order, i.e. unspecified; compare the members as a multiset
+			out := dst.Elem()
+			if out.Kind() == reflect.Interface && !out.IsNil() {
+				out = out.Elem()
+			}
+			if out.Kind() == reflect.Slice && out.Len() > 1 {
+				var items []string
+				for k := 0; k < out.Len(); k++ {
+					items = append(items, DumpValue(out.Index(k)))
+				}
+				sortStrings(items)
+				return fmt.Sprintf("path_get err=%q multiset=%v", normErr(err), items)
+			}
 			return fmt.Sprintf("path_get err=%q val=%s", normErr(err), DumpValue(dst.Elem()))
 		}
 	case "query_string":
@@ -765,3 +783,11 @@ func execSessions(p *plan.Plan, res *plan.Result) {
 }
 
 var _ = context.Background
+
+func sortStrings(a []string) {
+	for i := 1; i < len(a); i++ {
+		for j := i; j > 0 && a[j-1] > a[j]; j-- {
+			a[j-1], a[j] = a[j], a[j-1]
+		}
+	}
+}
